@@ -16,8 +16,9 @@ MRTS_T = [0.0, 4 * U, 6 * U, 8 * U, 12 * U, 16 * U, 40 * U]
 
 def plan(tier):
     if tier == "quick":
-        specs = [([("dense", 1, 5)], TAUS_Q, MRTS_Q, True),
-                 ([("bounded", 3, 6, 9)], TAUS_Q, MRTS_Q, False),
+        specs = [([("dense", 1, 4)], TAUS_Q, MRTS_Q, True),
+                 ([("dense", 5, 5)], TAUS_Q, MRTS_Q, False),
+                 ([("bounded", 3, 6, 8)], TAUS_Q, MRTS_Q, False),
                  ([("near", 2, 3)], [2.0 ** -30, U], [0.0], True)]
     else:
         specs = [([("dense", 1, 7)], TAUS_T, MRTS_T, True),
@@ -55,11 +56,65 @@ def plan(tier):
     }
 
 
+def list_forms(spk, st1, st2, edges, kw):
+    """the same coincidences seen through the list / indices / typed-keyword forms; every
+    entry must reproduce the bivariate result of the same call"""
+    e = spk.SpikeTrain([], edges)
+    l3 = [st1, st2, e]
+    f = {}
+    p = spk.spike_sync_profile([st1, st2], **kw)
+    f["sync_profile([a,b])"] = ("sy", np.asarray(p.y, float))
+    p = spk.spike_sync_profile(l3, **kw)
+    f["sync_profile([a,b,empty])"] = ("sy", np.asarray(p.y, float))
+    p = spk.spike_sync_profile(l3, indices=[1, 0], **kw)
+    f["sync_profile(list,indices=[1,0])"] = ("sy", np.asarray(p.y, float))
+    p = spk.spike_train_order_profile(l3, **kw)
+    f["order_profile([a,b,empty])"] = ("oy", np.asarray(p.y, float))
+    p = spk.spike_train_order_profile([st1, st2], **kw)
+    f["order_profile([a,b])"] = ("oy", np.asarray(p.y, float))
+    dv = spk.spike_directionality_values(l3, indices=[0, 1], **kw)
+    f["directionality_values(list,indices=[0,1])"] = ("d12", np.concatenate(
+        [np.asarray(dv[0], float), np.asarray(dv[1], float)]))
+    dv = spk.spike_directionality_values(l3, **kw)
+    f["directionality_values([a,b,empty])"] = ("d12", 2 * np.concatenate(
+        [np.asarray(dv[0], float), np.asarray(dv[1], float)]))
+    M = np.asarray(spk.spike_directionality_matrix(l3, normalize=False, **kw), float)
+    f["directionality_matrix([a,b,empty])[0,1]"] = ("dsum", np.array([M[0, 1]]))
+    k = spk.filter_by_spike_sync(l3, 0.0, **kw)
+    f["filter([a,b,empty],0)"] = ("k12", np.array(k[0].spikes.tolist() + [np.inf] +
+                                                  k[1].spikes.tolist()))
+    f["spike_sync([a,b])"] = ("v", np.array([float(spk.spike_sync([st1, st2], **kw))]))
+    f["spike_sync_matrix([a,b,empty])[0,1]"] = ("v", np.array(
+        [np.asarray(spk.spike_sync_matrix(l3, **kw), float)[0, 1]]))
+    mt = kw.get("max_tau")
+    if mt is not None and mt > 0 and float(mt * 8).is_integer():
+        # the same recording on a time axis scaled by 8 (C08), where max_tau is an integer
+        # number: passed as Python int and as numpy float32
+        sc = 8.0
+        a1 = spk.SpikeTrain([t * sc for t in st1.spikes], [edges[0] * sc, edges[1] * sc])
+        a2 = spk.SpikeTrain([t * sc for t in st2.spikes], [edges[0] * sc, edges[1] * sc])
+        for conv, nm in ((int, "int"), (np.float32, "float32")):
+            kw2 = dict(kw, max_tau=conv(mt * sc), MRTS=kw.get("MRTS", 0.0) * sc)
+            p = spk.spike_sync_profile(a1, a2, **kw2)
+            f["sync_profile(max_tau=%s)" % nm] = ("sy", np.asarray(p.y, float))
+            p = spk.spike_train_order_profile(a1, a2, **kw2)
+            f["order_profile(max_tau=%s)" % nm] = ("oy", np.asarray(p.y, float))
+            k = spk.filter_by_spike_sync([a1, a2], 0.5, **kw2)
+            f["filter(max_tau=%s)" % nm] = ("k12", np.array(
+                [t / sc for t in k[0].spikes.tolist()] + [np.inf] +
+                [t / sc for t in k[1].spikes.tolist()]))
+            dv = spk.spike_directionality_values(a1, a2, **kw2)
+            f["directionality_values(max_tau=%s)" % nm] = ("d12", np.concatenate(
+                [np.asarray(dv[0], float), np.asarray(dv[1], float)]))
+            f["spike_sync(max_tau=%s)" % nm] = ("v", np.array([float(spk.spike_sync(a1, a2, **kw2))]))
+    return f
+
+
 def _near(t, other, tau):
     return any(abs(t - s) < tau for s in other)
 
 
-def evaluate(r, trains, edges, taus, mrts, full, be, rank=()):
+def evaluate(r, trains, edges, taus, mrts, full, be, rank=(), task_mrts0=0.0):
     import pyspike as spk
     ts, te = edges
     st1 = spk.SpikeTrain(trains[0], edges)
@@ -95,6 +150,8 @@ def evaluate(r, trains, edges, taus, mrts, full, be, rank=()):
                                     float(p.avrg(list(iv)))))
                 d["m"] = np.asarray(spk.spike_sync_matrix([st1, st2, st1], **kw), float)[0, 1]
                 d["o"] = float(spk.spike_train_order(st1, st2, normalize=False, **kw))
+                d["forms"] = list_forms(spk, st1, st2, edges, kw) \
+                    if (mt is None or mt in (taus[0], taus[1])) and mrts == task_mrts0 else {}
             res.append(d)
     except Exception as e:
         r.violation(ID, "exception", be, "exception/%s/%s" % (be, cls), case, "results",
@@ -104,6 +161,8 @@ def evaluate(r, trains, edges, taus, mrts, full, be, rank=()):
     # None and 0 are identical
     a, b = res[0], res[1]
     for k in a:
+        if k == "forms":
+            continue
         same = (a[k] == b[k]) if not isinstance(a[k], np.ndarray) else \
             (a[k].shape == b[k].shape and np.array_equal(a[k], b[k]))
         if not same:
@@ -169,6 +228,17 @@ def evaluate(r, trains, edges, taus, mrts, full, be, rank=()):
                 for iv, (a, b) in zip(ivals, d["iv"]):
                     if abs(a - b) > 1e-12:
                         bad = ("scalar.interval", b, {"spike_sync": a, "interval": iv})
+                        break
+            if not bad:
+                ref = {"sy": d["sy"][1:-1], "oy": d["oy"][1:-1],
+                       "d12": np.concatenate([d["d1"], d["d2"]]),
+                       "dsum": np.array([d["d1"].sum()]),
+                       "k12": np.array(d["k1"] + [np.inf] + d["k2"]), "v": np.array([d["v"]])}
+                for fname, (key, val) in d["forms"].items():
+                    got = val[1:-1] if key in ("sy", "oy") else val
+                    if got.shape != ref[key].shape or not np.all(
+                            (got == ref[key]) | (np.abs(got - ref[key]) <= 1e-12)):
+                        bad = ("form", ref[key], {fname: got})
                         break
             if bad:
                 r.violation(ID, "bound." + bad[0], be, "bound.%s/%s/%s" % (bad[0], be, cls),
